@@ -70,6 +70,9 @@ type ShipConnection struct {
 
 	mux       sync.Mutex
 	bufferMux sync.Mutex
+
+	// serialises the user's decisions on a pending request (approve, deny)
+	pendingDecisionMux sync.Mutex
 }
 
 var _ api.ShipConnectionInterface = (*ShipConnection)(nil)
@@ -125,6 +128,11 @@ func (c *ShipConnection) ShipHandshakeState() (model.ShipMessageExchangeState, e
 
 // invoked when pairing for a pending request is approved
 func (c *ShipConnection) ApprovePendingHandshake() {
+	// approving and denying a pending request both check the state and then act on it,
+	// issued at the same time they must not both find the request still pending
+	c.pendingDecisionMux.Lock()
+	defer c.pendingDecisionMux.Unlock()
+
 	state := c.getState()
 	if state != model.SmeHelloStatePendingListen {
 		// TODO: what to do if the state is different?
@@ -149,6 +157,9 @@ func (c *ShipConnection) ApprovePendingHandshake() {
 
 // invoked when pairing for a pending request is denied
 func (c *ShipConnection) AbortPendingHandshake() {
+	c.pendingDecisionMux.Lock()
+	defer c.pendingDecisionMux.Unlock()
+
 	state := c.getState()
 	if state != model.SmeHelloStatePendingListen && state != model.SmeHelloStateReadyListen {
 		// TODO: what to do if the state is differnet?
